@@ -14,11 +14,13 @@ RLU = dict(overlay="harness/rlulule", pkgdir="plugins/ratelimit/ulule", pkgname=
 RLN = dict(overlay="harness/rlnative", pkgdir="plugins/ratelimit/native", pkgname="roratelimit", timeshim=True)
 
 SORT = dict(overlay="harness/sort", pkgdir="plugins/sort", pkgname="rosort")
+TPL = dict(overlay="harness/template", pkgdir="plugins/template", pkgname="rotemplate", stubs={"text/template": "template", "html/template": "template"})
+SCONV = dict(overlay="harness/strconv", pkgdir="plugins/strconv", pkgname="rostrconv", stubs={"strconv": "strconv"})
 STDIO = dict(overlay="harness/stdio", pkgdir="plugins/stdio", pkgname="rostdio")
 
 PROPS = {
-    "C18": {"quick": [J("^vhC18_sort_n3$", samples=4, **SORT), J("^vhC18_(reader_c2|writer_n2)$", samples=4, **STDIO)],
-            "thorough": [J("^vhC18_sort_n3$", samples=8, **SORT), J("^vhC18_(reader_c3|writer_n3)$", samples=8, **STDIO)], "bounds": {"sort_items": 3, "chunk_bytes": 3},
+    "C18": {"quick": [J("^vhC18_sort_n3$", samples=4, **SORT), J("^vhC18_(reader_c2|writer_n2)$", samples=4, **STDIO), J("^vhC18_template", samples=3, **TPL), J("^vhC18_(strconv|format)_n2$", samples=3, **SCONV)],
+            "thorough": [J("^vhC18_sort_n3$", samples=8, **SORT), J("^vhC18_(reader_c3|writer_n3)$", samples=8, **STDIO), J("^vhC18_template", preempt=1, samples=3, **TPL), J("^vhC18_(strconv_n3|format_n2)$", samples=3, **SCONV)], "bounds": {"sort_items": 3, "chunk_bytes": 3},
             "assumptions": ["sort.Slice / sort.SliceStable are contract stubs: every permutation sorted w.r.t. less is explored (stable: ties keep their order)",
                             "partial claim: sort plugin and stdio readers/writers only; strconv/regexp/time/template/base64/json/gob/csv wrappers are not encoded (their wrapped functions need concrete text)"]},
     "C20": {"quick": [J("^vhC20_ulule_L2$", samples=4, **RLU), J("^vhC20_native(slow)?_n2$", samples=2, **RLN)],
@@ -31,12 +33,12 @@ PROPS = {
             "thorough": [J("^vhC05_multi_T5$", samples=8), J("^vhC05_conc_v2$", preempt=0, samples=2, maxpaths=3000000), J("^vhC05_concsel_v1$", preempt=1, samples=2, maxpaths=3000000)], "bounds": {}, "assumptions": []},
     "C06": {"quick": [J("^vhC06_(inside_L2|wait_L1|collect_L2)$", preempt=1, samples=3)], "thorough": [J("^vhC06_(inside_L3|wait_L2|collect_L3)$", preempt=2, samples=4)], "bounds": {}, "assumptions": []},
     "C08": {"quick": [J("^vhC08_(sync_L2|handoff_n2)$", preempt=1, samples=3)], "thorough": [J("^vhC08_(sync_L3|handoff_n3)$", preempt=2, samples=4)], "bounds": {}, "assumptions": []},
-    "C14": {"quick": [J("^vhC14_early_L2$", samples=4)], "thorough": [J("^vhC14_early_L3$", preempt=1, samples=6)], "bounds": {}, "assumptions": []},
+    "C14": {"quick": [J("^vhC14_early_L2$", samples=4), J("^vhC03_subconc_(2|3)$", preempt=2, samples=1)], "thorough": [J("^vhC14_early_L3$", preempt=1, samples=6), J("^vhC03_subconc_(2|3)$", preempt=3, samples=1)], "bounds": {}, "assumptions": []},
     "C17": {"quick": [J("^vhC17_.*_L2$", preempt=1, samples=3)], "thorough": [J("^vhC17_.*_L3$", preempt=1, samples=4)], "bounds": {}, "assumptions": []},
     "C02": {"quick": [J("^vhC02_core_(2x2|3x1)$", preempt=0, samples=2), J("^vhC02_core_2x2$", preempt=1, samples=3, maxpaths=600000),
                       J("^vhC10_conc_|^vhC05_conc_v1$", preempt=0, samples=1, only_msgs="overlapped", maxpaths=600000)],
             "thorough": [J("^vhC02_core_(2x2|3x1)$", preempt=2, samples=6, maxpaths=5000000), J("^vhC10_conc_|^vhC05_conc_v2$", preempt=1, samples=1, only_msgs="overlapped", maxpaths=5000000)], "bounds": {"threads": 3, "preemptions_quick": 1, "preemptions_thorough": 2}, "assumptions": []},
-    "C03": {"quick": [J("^vhC03_(sub_K3|cut_L2)$", samples=4), J("^vhC11_(share|conn)_K4$", samples=2, only_msgs="upstream subscription|source subscription")], "thorough": [J("^vhC03_(sub_K4|cut_L3)$", samples=8), J("^vhC11_(share|conn)_K5$", samples=2, only_msgs="upstream subscription|source subscription")], "bounds": {}, "assumptions": []},
+    "C03": {"quick": [J("^vhC03_(sub_K3|cut_L2)$", samples=4), J("^vhC03_subconc_(2|3)$", preempt=0, samples=1), J("^vhC03_subconc_(2|3)$", preempt=2, samples=1), J("^vhC11_(share|conn)_K4$", samples=2, only_msgs="upstream subscription|source subscription")], "thorough": [J("^vhC03_(sub_K4|cut_L3)$", samples=8), J("^vhC03_subconc_(2|3)$", preempt=0, samples=1), J("^vhC03_subconc_(2|3)$", preempt=3, samples=1), J("^vhC11_(share|conn)_K5$", samples=2, only_msgs="upstream subscription|source subscription")], "bounds": {}, "assumptions": []},
     "C07": {"quick": [J("^vhC07_.*_L2$", samples=4)], "thorough": [J("^vhC07_.*_L3$", samples=8)], "bounds": {}, "assumptions": []},
     "C09": {"quick": [J("^vhC09_.*_L2$", samples=4), J("^vhC09_async_n2$", samples=3, timeshim=True)], "thorough": [J("^vhC09_.*_L3$", samples=8), J("^vhC09_async_n3$", preempt=1, samples=3, timeshim=True)], "bounds": {}, "assumptions": []},
     "C12": {"quick": [J("^vhC12_.*_L2$|^vhC12_multi_T2$", samples=4)], "thorough": [J("^vhC12_.*_L3$|^vhC12_multi_T3$", samples=8)], "bounds": {}, "assumptions": []},
